@@ -1,6 +1,7 @@
 package sim
 
 import (
+	"bytes"
 	"encoding/hex"
 	"fmt"
 	"strings"
@@ -25,6 +26,7 @@ var vmPrograms = map[string]string{
 	"storeRevert":  "600160005560006000fd",       // slot0 := 1 ; REVERT
 	"storeInvalid": "6001600055fe",               // slot0 := 1 ; INVALID
 	"suicide":      "33ff",                       // SELFDESTRUCT(caller)
+	"suicideTo":    "600035ff",                   // SELFDESTRUCT(calldata[0:32])
 	"log":          "60006000a000",               // LOG0 ; STOP
 	"logRevert":    "60006000a060006000fd",       // LOG0 ; REVERT
 	"forward":      "600060006000600034600035" + "5af100",          // CALL(gas, calldata[0:32], callvalue, 0,0,0,0) ; STOP
@@ -76,7 +78,7 @@ func BankVMProfile(seed int64, out *Recorder, nOps int) *Chain {
 			banktypes.NewMsgSend(c.Accts[src].Addr, c.Accts[mi].Addr, free))
 	}
 	var contracts []deployed
-	kinds := []string{"stop", "revert", "loop", "invalid", "store", "storeRevert", "storeInvalid", "suicide", "log", "logRevert", "forward", "innerCall"}
+	kinds := []string{"stop", "revert", "loop", "invalid", "store", "storeRevert", "storeInvalid", "suicide", "suicideTo", "log", "logRevert", "forward", "innerCall"}
 	deploy := func(who int, kind string, value uint64) {
 		rt, _ := hex.DecodeString(vmPrograms[kind])
 		m := cvmtypes.NewMsgDeploy(c.Accts[who].Addr.String(), value, initCode(rt), "", nil, false, false)
@@ -244,6 +246,7 @@ func BankVMProfile(seed int64, out *Recorder, nOps int) *Chain {
 				value = uint64(amounts(who))
 			}
 			var data []byte
+			selfTarget := false
 			expect := "ok"
 			desc := D{"t": "cvm.call", "caller": Hex(ac.Addr), "callee": Hex(d.Addr), "kind": d.Kind, "value": value}
 			switch d.Kind {
@@ -269,13 +272,39 @@ func BankVMProfile(seed int64, out *Recorder, nOps int) *Chain {
 				desc["targetKind"] = t.Kind
 			case "suicide":
 				// contract disappears; its whole balance goes to the caller
+			case "suicideTo":
+				// the beneficiary is named by the caller: the contract itself, the caller, another account, another
+				// contract, or an address that does not exist yet
+				var t []byte
+				switch rng.Intn(8) {
+				case 0, 1, 2:
+					t = d.Addr
+				case 3:
+					t = ac.Addr
+				case 4:
+					t = c.Accts[rng.Intn(len(c.Accts))].Addr
+				case 5:
+					if o := pickContract("stop", "store", "revert", "suicideTo"); o != nil {
+						t = o.Addr
+					} else {
+						t = d.Addr
+					}
+				default:
+					t = make([]byte, 20)
+					rng.Read(t)
+					t[0] = 0x7e // not a native address
+				}
+				data = word32(t)
+				desc["target"] = Hex(t)
+				selfTarget = bytes.Equal(t, d.Addr)
+				desc["targetExists"] = c.App.VerifAccountKeeper().GetAccount(c.Ctx(), sdk.AccAddress(t)) != nil
 			}
 			desc["expect"] = expect
 			desc["data"] = hex.EncodeToString(data)
 			m := cvmtypes.NewMsgCall(ac.Addr.String(), d.Addr.String(), value, data)
 			gas := uint64(3000000)
 			res := c.DoGas(who, gas, DefaultFee, []D{desc}, nil, &m)
-			if res.Code == 0 && d.Kind == "suicide" {
+			if res.Code == 0 && (d.Kind == "suicide" || (d.Kind == "suicideTo" && !selfTarget)) {
 				for j := range contracts {
 					if contracts[j].Addr.Equals(d.Addr) {
 						contracts = append(contracts[:j], contracts[j+1:]...)
